@@ -718,6 +718,9 @@ def removal_selects_type(ct: Container, rep, rule="removal-selects-type"):
 
 
 def run(prog, rep):
+    # one table per file object: a table bound in the class body is shared by every open file of the process
+    from .c17 import container_own_state
+    rep.attempt(container_own_state, prog, rep)
     ct = Container(prog)
     rep.explanation = (
         "swallowed-raise: a raise lexically inside a try whose handler catches its class (builtin hierarchy) without re-raising is a "
@@ -741,6 +744,10 @@ def run(prog, rep):
     from .c08 import handle_discipline
     rep.attempt(handle_discipline, ct, rep)
     rep.attempt(removal_selects_type, ct, rep)
+    # a setter on a present type removes, then adds: the add must not refuse a comment / label that the field can hold (the text
+    # primitive refuses exactly what does not fit), or the type silently disappears
+    from .c13 import string_write_rules
+    rep.attempt(string_write_rules, prog, rep)
     # a live entry can be looked up only if its bytes are where the table says: the removal moves the WHOLE tail up on every path,
     # and an add refuses a live entry behind the slot it takes (C03/C09's rules, necessary here)
     rep.attempt(lambda: M.tail_move(ct, rep))
